@@ -53,7 +53,12 @@ CLAIMS = {
         text="Proof (Lean 4), J1939-21: send_pgn (> 8 bytes) returns False iff the (SA, DA) pair is in the send table, a refused call emits "
              "nothing and leaves the state equal; an accepted call occupies exactly its own pair; RTS/BAM/TP.DT handling and the receive side "
              "of the background pass never touch the send table (inbound never consumes outbound capacity).  Partial: release within bounded "
-             "time is C07's invariant; the J1939-22 session pools are covered by correspondence/oracle only until Dll22 theorems exist.",
+             "time is C07's invariant.  J1939-22: an accepted long message takes exactly one free number of its kind and a refused one "
+             "changes nothing (C02), no received frame touches either pool (C02), and every deletion of a send record by the pass — CTS "
+             "timeout, acknowledgement timeout or arrival, peer abort (D22), end of a broadcast — returns exactly that record's number to "
+             "the pool of its kind (c10_22_deleted_returns_number); pools keep their sizes 8 and 4 over any history (C07's WF).  Partial: "
+             "the counting argument (free numbers + live records = capacity) is not one theorem; the history oracle starts 8 + 4 sessions "
+             "after every history.",
         note="Same tie as C09. Oracle: histories of transfers with losses, injected peer aborts and silent peers on real stacks, every "
              "send_pgn result judged against a bus-only tracker of busy pairs, then full concurrency. Proved for the code as repaired by fix D1.",
         technique="Lean 4 theorems over hand model with regenerated leaves; lock-step correspondence; history oracle on real stacks",
@@ -150,8 +155,9 @@ CLAIMS = {
              "unchanged and silent; the ECU dispatch hands a PDU to exactly the matching registrations (no address / integer address or global / "
              "predicate or global), once each, in order; destination 255 matches every registration; a CA without an address accepts nothing "
              "destination-specific, an operational one exactly its address and 255; the listener forwards iff extended and not "
-             "remote/error/stopped (all 16 combinations).  Partial: the J1939-22 acceptance logic is exercised by the oracle on the real code "
-             "only (no Dll22 theorems yet).",
+             "remote/error/stopped (all 16 combinations).  J1939-22: the same no-op and bystander theorems for the FD layer (any PGN incl. "
+             "FD.TP.CM/DT and multi-PG), and a PDU2 frame is a broadcast handed up with destination 255 whatever its group extension "
+             "(repair of D18).  Partial: multi-PG unpacking towards several CAs of one ECU is exercised by the oracle.",
         note="Proved/validated for the code as repaired by fix D18. Tie: Dll21 hostile-script correspondence, ECU dispatch scripts with int/"
              "predicate/unfiltered registrations (incl. address 0), CA scripts, the real MessageListener with real can.Message flag combinations.",
         technique="Lean 4 no-op / decision-logic theorems + induction over foreign frame sequences; correspondence; addressing oracle on both DLLs",
